@@ -249,8 +249,12 @@ def classify(verdicts, prop):
 
 def load_known():
     fs = {"finding": [], "fixed": []}
-    p = os.path.join(VERIF, "known_findings.jsonl")
-    if os.path.exists(p):
+    paths = [os.path.join(VERIF, "known_findings.jsonl")]
+    if os.environ.get("VERIF_KNOWN"):          # development aid only: an extra file in the same format
+        paths.append(os.environ["VERIF_KNOWN"])
+    for p in paths:
+        if not os.path.exists(p):
+            continue
         for l in open(p):
             l = l.strip()
             if l:
@@ -358,6 +362,7 @@ def generic_check(spec, prop, tier, seed, replay):
             log(ferr)
         else:
             cov["facts"] = facts
+    sh([os.path.join(VERIF, "tools", "mklake")])
     ok_or, oout = lake_build(["oracle_" + spec.get("oracle", comp)])
     if not ok_or:
         broken.append("oracle-build:oracle_%s" % spec.get("oracle", comp))
